@@ -2,6 +2,7 @@ package sym
 
 import (
 	"fmt"
+	"strconv"
 	"strings"
 
 	"golang.org/x/tools/go/ssa"
@@ -106,7 +107,14 @@ func vCut()               { panic(vStop{"VERIF-CUT"}) }
 func vMapOrder(on bool)   {}
 func vNote(s string)      {}
 func vObserve(tag string, v ...interface{}) {
-	vObs = append(vObs, tag+"="+fmt.Sprint(v...))
+	s := tag + "="
+	for i, x := range v {
+		if i > 0 {
+			s += " "
+		}
+		s += fmt.Sprintf("%v", x)
+	}
+	vObs = append(vObs, s)
 }
 func vName(prefix string, idx ...int) string {
 	s := prefix
@@ -264,10 +272,7 @@ func init() {
 			tag := ip.nameArg(a[0])
 			var parts []string
 			for _, v := range a[1].(SliceV).Data {
-				if iv, ok := v.(IfaceV); ok {
-					v = iv.V
-				}
-				parts = append(parts, describe(v))
+				parts = append(parts, ip.obsString(v))
 			}
 			ip.p.observations = append(ip.p.observations, tag+"="+strings.Join(parts, " "))
 			return nil
@@ -285,4 +290,48 @@ func (p *PathCtx) assumeOnce(key string, c *Term) {
 	}
 	p.seenAssume[key] = true
 	p.Assume(c)
+}
+
+// obsString renders an observed value the way the native fmt.Sprintf("%v") does.
+func (ip *Interp) obsString(v Value) string {
+	signed := true
+	if iv, ok := v.(IfaceV); ok {
+		if iv.T == nil {
+			return "<nil>"
+		}
+		signed = isSigned(iv.T)
+		v = iv.V
+	}
+	switch x := v.(type) {
+	case *Term:
+		c := x
+		if !c.IsConst() {
+			if !ip.p.concrete {
+				return "<" + x.String() + ">"
+			}
+			c = ip.p.T.Const(x.W, ip.p.evalU(x))
+		}
+		if c.W == 0 {
+			return strconv.FormatBool(c.C == 1)
+		}
+		if signed {
+			return strconv.FormatInt(signExt(c.C, c.W), 10)
+		}
+		return strconv.FormatUint(c.C, 10)
+	case float64:
+		return fmt.Sprintf("%v", x)
+	case *StrV:
+		if x.IsConc() {
+			return x.S
+		}
+		if ip.p.concrete {
+			b := make([]byte, len(x.Sym))
+			for i, t := range x.Sym {
+				b[i] = byte(ip.p.evalU(t))
+			}
+			return string(b)
+		}
+		return describe(x)
+	}
+	return describe(v)
 }
